@@ -70,7 +70,9 @@ TraceNext ==
        /\ (Ev.ok => delivered[Len(delivered)] = <<Ev.blk, Ev.idx>>)
        /\ cOff = Ev.cur /\ pOff = Ev.prev
   \/ IsEvent("c.err") /\ C_Err /\ ErrCls(ErrClass) = Ev.class
-  \/ IsEvent("c.close") /\ C_Close
+  \/ IsEvent("c.close") /\ (IF ~closed THEN C_Close
+                             ELSE /\ cpc = "idle" /\ cpc' = "wait" /\ hist' = Append(hist, [op |-> "close"])     \* closing twice: waits again, nothing else
+                                  /\ UNCHANGED << cfg, started, cancelled, parentCancelled, pipeVars, cData, cIndex, pOff, cOff, sErr, closed, delivered, lastScan >>)
   \/ IsEvent("c.waited") /\ C_Waited
   \/ IsEvent("x.cancel") /\ (IF parentCancelled THEN UNCHANGED vars ELSE Cancel)    \* cancelling twice is a no-op
   \/ (IsEvent("start") /\ UNCHANGED vars /\ started /\ Ev.n = N /\ Ev.cap = Cap)
